@@ -166,11 +166,13 @@ def check(ctx):
                                     kind = f"is handed to {name}(), which walks its whole chain, in every iteration"
                     n5 += 1
                     ok = kind is None
-                    key = f"{fn.name}:{T}:{(kind or '').split('(')[0].strip()[:30]}"
+                    from .c06 import canon_of
+                    Tk = T if root.id in params else canon_of(fn).text(a_.targets[0]).replace("_", "$", 1) if isinstance(a_.targets[0], ast.Name) else (T.replace(root.id, "$", 1))
+                    key = f"{fn.name}:{Tk}:{(kind or '').split('(')[0].strip()[:30]}"
                     ctx.oblige("R-C16.5", f"{fn.name}: loop-carried {T} at line {a_.lineno}", ok, sample={"rule": "R-C16.5", "function": fn.name, "statement": S.unparse(a_)[:80], "verdict": kind or "constant work per iteration"})
                     if not ok and key not in seen5:
                         seen5.add(key)
-                        ctx.violation("R-C16.5", f"requadratic:{fn.name}:{T}", f"in {fn.name} the loop-carried `{T}` {kind} (`{S.unparse(a_)[:80]}`): the k-th iteration does work proportional to k, so k repetitions cost ~k^2/2",
+                        ctx.violation("R-C16.5", f"requadratic:{fn.name}:{Tk}", f"in {fn.name} the loop-carried `{T}` {kind} (`{S.unparse(a_)[:80]}`): the k-th iteration does work proportional to k, so k repetitions cost ~k^2/2",
                                       file=m_.rel, function=fn.name, line=a_.lineno, construct=S.unparse(a_)[:160])
                 # deep copies of anything inside a loop
                 for c_ in ast.walk(L):
